@@ -491,11 +491,69 @@ def rule_empty(ctx: Ctx) -> RuleReport:
 WHOLE_INPUT_PATTERNS = [(X + "mail/mbox_email_extractor.py", "MBOX_FROM_PATTERN")]  # run over the complete input with finditer
 
 
+def html_sniff_window(ctx: Ctx, rep: RuleReport, rule: str) -> None:
+    import re as _re
+
+    from sa.engine.redos import Undecided, restart_ambiguity
+    from sa.rules.c01 import _pattern_of
+
+    # HTML: the charset sniffer. Its pattern restarts at every '<meta' and reads to the next '>' each time -- harmless on a window of
+    # constant size, quadratic on the whole page
+    HTML_ = X + "html_extractor.py"
+    hm = ctx.p.module(HTML_)
+    rh = ctx.p.func(HTML_, "read_html")
+    n_sniff = 0
+    for c in calls_in(rh):
+        if not (isinstance(c.func, ast.Attribute) and c.func.attr in ("search", "finditer", "findall") and isinstance(c.func.value, ast.Name) and c.func.value.id in hm.assigns and c.args):
+            continue
+        node = hm.assigns[c.func.value.id]
+        if not (isinstance(node, ast.Call) and (dotted(node.func) or "") == "re.compile" and node.args):
+            continue
+        got = _pattern_of(ctx, hm, node.args[0])
+        if not got:
+            continue
+        fl = 0
+        for a in list(node.args[1:]) + [k_.value for k_ in node.keywords]:
+            for x in ast.walk(a):
+                if isinstance(x, ast.Attribute) and isinstance(x.value, ast.Name) and x.value.id == "re" and isinstance(getattr(_re, x.attr, None), _re.RegexFlag):
+                    fl |= getattr(_re, x.attr)
+        try:
+            rw = restart_ambiguity(got[0], int(fl))
+        except Undecided:
+            rw = None
+        if rw is None:
+            continue
+        n_sniff += 1
+        rep.unit(f"{HTML_}::{c.func.value.id}")
+        # is the subject bounded by a constant? follow locals: a slice [:K], or .sub / .strip / .lower of something bounded
+        defs = {a.targets[0].id: a.value for a in walk_own(rh.node) if isinstance(a, ast.Assign) and len(a.targets) == 1 and isinstance(a.targets[0], ast.Name)}
+
+        def bounded(e, depth=0):
+            if depth > 4:
+                return False
+            if isinstance(e, ast.Subscript) and isinstance(e.slice, ast.Slice) and e.slice.upper is not None and isinstance(ctx.folder.fold(hm, e.slice.upper), int):
+                return True
+            if isinstance(e, ast.Call) and isinstance(e.func, ast.Attribute) and e.func.attr in ("sub", "strip", "lstrip", "lower", "replace"):
+                inner = e.args[1] if e.func.attr == "sub" and len(e.args) > 1 else e.func.value
+                return bounded(inner, depth + 1)
+            if isinstance(e, ast.Name) and e.id in defs:
+                return bounded(defs[e.id], depth + 1)
+            return False
+
+        if bounded(c.args[0]):
+            rep.ok({"sniffer": c.func.value.id, "subject": norm(c.args[0]), "bounded": True})
+        else:
+            text = got[0] if isinstance(got[0], str) else got[0].decode("latin-1")
+            rep.fail(Finding(rule, HTML_, rh.qual, f"{c.func.value.id} scanned over an unbounded subject: {anorm(c.args[0], rh.node)}", f"`{short(c, 60)}` applies `{text[:50]}` to input whose length the document controls, and {rw}: 775 KB of unclosed '<meta' lines take more than 20 s (0.06 s on an 8 KB window)", line=c.lineno))
+    if n_sniff == 0:
+        rep.info.append("read_html applies no restart-prone pattern")
+
+
 def rule_regex(ctx: Ctx) -> RuleReport:
     """Run time within a fixed multiple of the input: a pattern that is run over the whole input must not be polynomially ambiguous."""
     import re as _re
 
-    from sa.engine.redos import Undecided, exponential_ambiguity, polynomial_ambiguity
+    from sa.engine.redos import Undecided, exponential_ambiguity, polynomial_ambiguity, restart_ambiguity
     from sa.rules.c01 import _RE_FUNCS, _pattern_of
 
     rep = RuleReport("C12-REGEX", "patterns that scan the whole input (the mailbox separator, the RTF reader's document-level patterns) have no two adjacent repeats that can share a run of characters (IDA on the pattern's automaton: such a pattern needs quadratic time on a long failing line)")
@@ -540,6 +598,17 @@ def rule_regex(ctx: Ctx) -> RuleReport:
         elif isinstance(node, ast.DictComp) and _compiled(node.value):
             consts[name] = [node.value]
     judged: dict[str, list] = {}
+    kinds: dict[str, set] = {}
+    # helpers that apply a pattern given as argument with .match() at one position (no scan): pattern -> "match"
+    for fi in rm.functions.values():
+        for c in calls_in(fi):
+            if isinstance(c.func, ast.Name) and c.func.id in rm.functions and c.args and isinstance(c.args[0], ast.Name) and c.args[0].id in consts:
+                g = rm.functions[c.func.id]
+                p0 = g.node.args.args[0].arg if g.node.args.args else None
+                uses = {x.func.attr for x in ast.walk(g.node) if isinstance(x, ast.Call) and isinstance(x.func, ast.Attribute) and isinstance(x.func.value, ast.Name) and x.func.value.id == p0}
+                if uses and len(c.args) > 1 and isinstance(c.args[1], ast.Name) and c.args[1].id == "text":
+                    judged.setdefault(c.args[0].id, []).append(f"{fi.qual}: {short(c, 40)}")
+                    kinds.setdefault(c.args[0].id, set()).update(uses)
     for fi in rm.functions.values():
         params = {a.arg for a in fi.node.args.args}
         if "text" not in params:
@@ -574,6 +643,7 @@ def rule_regex(ctx: Ctx) -> RuleReport:
             subj = c.args[1] if c.func.attr in ("sub", "subn") and len(c.args) > 1 else (c.args[0] if c.args else None)
             if isinstance(subj, ast.Name) and subj.id in whole:
                 judged.setdefault(cname, []).append(f"{fi.qual}: {short(c, 40)}")
+                kinds.setdefault(cname, set()).add(c.func.attr)
     if len(judged) < 10:
         raise AnalysisError(f"C12-REGEX: only {len(judged)} RTF patterns applied to the whole document were recognised (10 confirmed)")
     for cname, sites in sorted(judged.items()):
@@ -594,10 +664,19 @@ def rule_regex(ctx: Ctx) -> RuleReport:
             except Undecided as exc:
                 rep.fail(Finding("C12-REGEX", RTF_, label, "undecided: " + text[:100], f"the pattern `{text[:80]}` is run over the whole document and is too large to be decided ({exc}); split it or simplify it", line=node.lineno))
                 continue
-            if w is None:
-                rep.ok({"pattern": label, "applied_in": sites[:2], "ambiguity": "none"})
-            else:
+            scans = bool(kinds.get(cname, {"search"}) & {"search", "finditer", "sub", "subn", "findall"})
+            try:
+                rw = restart_ambiguity(got[0], int(fl)) if (w is None and scans) else None
+            except Undecided as exc:
+                rw = None
+                rep.info.append(f"{label}: restart cost undecided ({exc})")
+            if w is None and rw is None:
+                rep.ok({"pattern": label, "applied_in": sites[:2], "applied_with": sorted(kinds.get(cname, [])), "ambiguity": "none"})
+            elif w is not None:
                 rep.fail(Finding("C12-REGEX", RTF_, label, "ambiguous: " + text[:100], f"the pattern `{text[:80]}` is run over the whole document ({sites[0]}) and {w}: an unclosed group or a long run of blanks costs quadratic or cubic time (24 KB of '\\field{{\\fldinst{{' took 97 s)", line=node.lineno))
+            else:
+                rep.fail(Finding("C12-REGEX", RTF_, label, "restarts: " + text[:100], f"the pattern `{text[:80]}` is scanned over the whole document ({sites[0]}, {'/'.join(sorted(kinds.get(cname, [])))}) and {rw}", line=node.lineno))
+    html_sniff_window(ctx, rep, "C12-REGEX")
     # the other patterns of the library: counted, not judged (they run on fields or on documents whose size the guards bound)
     n_poly = 0
     for m_ in ctx.p.modules.values():
